@@ -1,11 +1,12 @@
 #!/bin/sh
 # Runs the repository's pinned baseline suite with the verification guard OFF and compares the
 # result with /root/.vp/BASELINE.json (stable_pass). Prints the names of stable tests that did not pass.
-cd /repo || exit 2
+REPO_DIR=${REPO_DIR:-/repo}
+cd "$REPO_DIR" || exit 2
 OUT=${1:-/tmp/baseline-run}
 mkdir -p "$OUT"
-cargo nextest run --workspace --no-fail-fast --tool-config-file pb:/w/lib/nextest.toml --profile pb --test-threads 8 --offline >"$OUT/log.txt" 2>&1
-J=$(find /repo/target/nextest/pb -name '*.xml' | head -1)
+cargo nextest run --workspace --no-fail-fast --tool-config-file pb:/w/lib/nextest.toml --profile pb --test-threads 8 --offline ${NEXTEST_EXTRA:-} >"$OUT/log.txt" 2>&1
+J=$(find "$REPO_DIR/target/nextest/pb" -name '*.xml' | head -1)
 python3 - "$J" <<'PY'
 import json,sys,xml.etree.ElementTree as ET
 b=json.load(open('/root/.vp/BASELINE.json'))
